@@ -18,10 +18,11 @@ CONSTANTS
  AnsFree = FALSE
  PollWhileWaiting = FALSE
  PreFixF9 = FALSE
+ PreFixWDel = FALSE
  ThirdPartyFatal = FALSE
  Gen = "sim"
  ScriptLen = 12
 SPECIFICATION Spec
-INVARIANTS TypeOK Alive AtMostOneResponse AllAnswered NoDeadlock LockDiscipline
+INVARIANTS TypeOK Alive AtMostOneResponse AllAnswered NoDeadlock LockDiscipline StoreApplied
 PROPERTIES EditSafety
 CHECK_DEADLOCK FALSE
